@@ -109,7 +109,7 @@ def handle (inp out : Sexp) : CaseResult :=
         match decodeProg sS, decodeAll decodePer per with
         | some s0, some per =>
           let s := { s0 with body := rebody e.body s0.body }
-          let m := simplify selfFrames e
+          let m := simplify e
           let sameAvail := sameAvail == "true"
           let kept := s.frames.map (·.1)
           let nodup := decide (e.frames.map (·.1)).Nodup && decide (e.waveforms.map (·.1)).Nodup &&
